@@ -142,6 +142,9 @@ func VerifC19_WriterToClient() {
 	if len(resp.MultihashResults) != 1 {
 		return
 	}
+	// a client is used for many lookups: the next one works like the first
+	resp2, ferr2 := c.Find(context.Background(), mh)
+	verif_Assert(ferr2 == nil && resp2 != nil && len(resp2.MultihashResults) == 1 && len(resp2.MultihashResults[0].ProviderResults) == n, "a second lookup on the same client obtains the same results")
 	got := resp.MultihashResults[0].ProviderResults
 	verif_Assert(len(got) == n, "the client obtains as many results as were written")
 	if len(got) == n {
